@@ -409,6 +409,7 @@ CLASSIFY = None      # set by vf.hazard (avoids an import cycle)
 class _Br(Exception):
     def __init__(self, depth):
         self.depth = depth
+        self.orig = depth
 
 
 class _Ret(Exception):
@@ -421,7 +422,7 @@ MAY_FAIL_PAGES = 16384      # grows above 1 GiB may legitimately fail
 class Instance(object):
     """imports: dict (module bytes, name bytes) -> HostFunc | Memory | Table | GlobalCell | (Instance, funcidx)"""
 
-    def __init__(self, module, imports=None, tag=0, fuel=2000000, hazards=None):
+    def __init__(self, module, imports=None, tag=0, fuel=2000000, hazards=None, events=None):
         self.m = m = module
         self.tag = tag
         self.fuel = fuel
@@ -432,6 +433,7 @@ class Instance(object):
         self.table = None
         self.dropped = set()
         self.hz = hazards
+        self.ev = events      # optional Counter of executed-path events (C03 classification)
         imports = imports or {}
         for mod, name, kind, desc in m.imports:
             obj = imports[(mod, name)]
@@ -497,7 +499,7 @@ class Instance(object):
         if self.depth > 150:
             raise OutOfContract('call depth')
         ft = self.m.types[f.type]
-        frame = _Frame(args + [0] * len(f.locals))
+        frame = _Frame(args + [0] * len(f.locals), len(args))
         try:
             try:
                 self.block(frame, f.body, len(ft[1]), False)
@@ -511,6 +513,13 @@ class Instance(object):
     def block(self, fr, body, arity, is_loop):
         st = fr.stack
         h = len(st)
+        fr.depth += 1
+        try:
+            return self._block(fr, body, arity, is_loop, st, h)
+        finally:
+            fr.depth -= 1
+
+    def _block(self, fr, body, arity, is_loop, st, h):
         while True:
             try:
                 self.seq(fr, body)
@@ -519,9 +528,21 @@ class Instance(object):
                 if b.depth:
                     b.depth -= 1
                     raise
+                ev = self.ev
                 if is_loop:
+                    if ev is not None:
+                        ev['loop_backedge'] += 1
                     del st[h:]
                     continue
+                if ev is not None:
+                    if len(st) - h - arity > 0:
+                        ev['br_extra_operands'] += 1
+                        if arity:
+                            ev['br_value_extra_operands'] += 1
+                    if b.orig >= 1:
+                        ev['br_across_labels'] += 1
+                        if arity:
+                            ev['br_value_across_labels'] += 1
                 if arity:
                     v = st[-1]
                     del st[h:]
@@ -560,11 +581,17 @@ class Instance(object):
                             self.hz[op + ':' + c] += 1
                     st[-1] = fn(st[-1])
             elif op == 'local.get':
+                if self.ev is not None and ins[1] >= fr.nparams and ins[1] not in fr.written:
+                    self.ev['local_read_before_write'] += 1
                 st.append(loc[ins[1]])
             elif op == 'local.set':
                 loc[ins[1]] = st.pop()
+                if self.ev is not None:
+                    fr.written.add(ins[1])
             elif op == 'local.tee':
                 loc[ins[1]] = st[-1]
+                if self.ev is not None:
+                    fr.written.add(ins[1])
             elif op.endswith('.const'):
                 st.append(ins[1])
             elif op == 'block':
@@ -577,6 +604,8 @@ class Instance(object):
                     self.block(fr, ins[2], 1 if ins[1] else 0, False)
                 elif ins[3] is not None:
                     self.block(fr, ins[3], 1 if ins[1] else 0, False)
+                elif self.ev is not None:
+                    self.ev['if_noelse_not_taken'] += 1
             elif op == 'br':
                 raise _Br(ins[1])
             elif op == 'br_if':
@@ -584,8 +613,12 @@ class Instance(object):
                     raise _Br(ins[1])
             elif op == 'br_table':
                 i = st.pop()
+                if self.ev is not None:
+                    self.ev['br_table_default_oob' if i >= len(ins[1]) else 'br_table_entry'] += 1
                 raise _Br(ins[1][i] if i < len(ins[1]) else ins[2])
             elif op == 'return':
+                if self.ev is not None:
+                    self.ev['return_depth%d' % min(fr.depth, 3)] += 1
                 raise _Ret()
             elif op == 'unreachable':
                 raise Trap(TRAP_UNREACHABLE)
@@ -736,8 +769,11 @@ class Instance(object):
 
 
 class _Frame(object):
-    __slots__ = ('locals', 'stack')
+    __slots__ = ('locals', 'stack', 'nparams', 'written', 'depth')
 
-    def __init__(self, locals):
+    def __init__(self, locals, nparams=0):
         self.locals = locals
         self.stack = []
+        self.nparams = nparams
+        self.written = set()
+        self.depth = 0
